@@ -47,8 +47,8 @@ def site_stmt(site, a):
         "text-number": ".text 5", "if-string": '.if "a" { nop }',
         "seg-redefine": '.define segment { name = "zr" start = $1000 }\n.segment "zr" { lda #1\nnop }\n.define segment { name = "zr" start = $1000 }',
         "seg-redefine-moved": '.define segment { name = "zq" start = $1000 }\n.segment "zq" { lda #1 }\n.define segment { name = "zq" start = $3000 }\n.segment "zq" { nop }',
-        "seg-target-low": '.define segment { name = "zl" start = $1000 pc = $0000 }\n.segment "zl" {\n* = $0fff\nlda $1234\n}',
-        "seg-target-high": '.define segment { name = "zh" start = $1000 pc = $ff00 }\n.segment "zh" {\n* = $1100\nlda $1234\n}',
+        "seg-target-low": '.define segment { name = "zl" start = $0010 pc = $8000 }\n.segment "zl" {\n* = $7000\nlda $1234\n}',      # (`* =' names the address the code runs at: $7000 would be stored below address 0)
+        "seg-target-high": '.define segment { name = "zh" start = $1000 pc = $ff00 }\n.segment "zh" {\n* = $fffe\nlda $1234\n}',
         "seg-storage-high": '.define segment { name = "zg" start = $fffe pc = $1000 }\n.segment "zg" {\nlda $1234\n}',
         "loop-nested": ".loop %s { .loop %s { } }" % (a, a),
         "import-super": '.import super as zx from "zinc.asm"\nnop', "import-as-super": '.import * as super from "zinc.asm"\nnop',
